@@ -44,11 +44,18 @@ def noLeaks : Leaks := { hasNew := false, newAcc := false, mapCtor := false, map
 
 /-! ## Generated files as the analysis sees them -/
 
+/-- a generated accessor interface `type TGetter interface { EGetter; Name() string }`: the interfaces it embeds
+    (by name) and the methods it declares itself -/
+structure IfaceDef where
+  embeds : List String := []
+  methods : List String := []
+  deriving DecidableEq, Repr, Inhabited
+
 /-- a generated file in the package directory (or in the overlay): its name and the accessor interfaces
-    it declares (`"EGetter"` ↦ method names) -/
+    it declares -/
 structure GFile where
   name : String
-  defs : List (String × List String)
+  defs : List (String × IfaceDef)
   deriving DecidableEq, Repr, Inhabited
 
 abbrev Disk := List GFile
@@ -69,8 +76,21 @@ def better (iface : String) (best : Option GFile) (f : GFile) : Option GFile :=
     | none => some f
     | some b => if f.name < b.name then some f else some b
 
-def lookupIface (files : Disk) (iface : String) : Option (List String) :=
+def findDef (files : Disk) (iface : String) : Option IfaceDef :=
   (files.foldl (better iface) none).bind (fun f => f.defs.lookup iface)
+
+/-- the method set of an interface as go/types computes it for the loaded package: own methods and those of
+    the embedded interfaces, each looked up among the CURRENT files (fuel = embedding depth) -/
+def methodsOf (files : Disk) : Nat → String → List String
+  | 0, _ => []
+  | fuel + 1, iface =>
+    match findDef files iface with
+    | none => []
+    | some d => d.embeds.flatMap (methodsOf files fuel) ++ d.methods
+
+/-- `FindGetterSetterIfac` + `iface.Method(i)`: none = no such interface in the package scope -/
+def lookupIface (files : Disk) (iface : String) : Option (List String) :=
+  (findDef files iface).map (fun _ => methodsOf files 16 iface)
 
 /-- `overlay[path] = src` -/
 def putOverlay (overlay : Disk) (f : GFile) : Disk := f :: overlay.filter (fun o => o.name ≠ f.name)
@@ -160,8 +180,8 @@ structure NOut where
   jget : List String                    -- MarshalJSON reads these through getters
   jset : List String                    -- UnmarshalJSON writes these through setters
   jexp : List String
-  ifaceGet : Option (List String)       -- methods of the generated TGetter (none: not generated)
-  ifaceSet : Option (List String)
+  ifaceGet : Option IfaceDef            -- the generated TGetter (none: not generated)
+  ifaceSet : Option IfaceDef
   deriving DecidableEq, Repr, Inhabited
 
 /-- `onceSet` of makeGetSet: the first entry of every name -/
@@ -244,14 +264,14 @@ def newStep (lk : Leaks) (fl : NFlags) (files : Disk) (st : NSt) (t : NType) : N
       jget := if needJSON then jget else [],
       jset := if needJSON then jset else [],
       jexp := if needJSON then jexp else [],
-      ifaceGet := if hasG then some (getE.flatMap (·.2) ++ getList.map Transfer.pascalS) else none,
-      ifaceSet := if hasS then some (setE.flatMap (·.2) ++ setList.map (fun n => "Set" ++ Transfer.pascalS n)) else none }
+      ifaceGet := if hasG then some { embeds := getE.map (·.1 ++ "Getter"), methods := getList.map Transfer.pascalS } else none,
+      ifaceSet := if hasS then some { embeds := setE.map (·.1 ++ "Setter"), methods := setList.map (fun n => "Set" ++ Transfer.pascalS n) } else none }
   ({ hasNew := hasNew, accs := accs, getter := sw.1, setter := sw.2, fields := fields }, some out)
 
 def newGFile (t : NType) (o : NOut) : GFile :=
   { name := t.file,
-    defs := (match o.ifaceGet with | some ms => [(t.name ++ "Getter", ms)] | none => [])
-         ++ (match o.ifaceSet with | some ms => [(t.name ++ "Setter", ms)] | none => []) }
+    defs := (match o.ifaceGet with | some d => [(t.name ++ "Getter", d)] | none => [])
+         ++ (match o.ifaceSet with | some d => [(t.name ++ "Setter", d)] | none => []) }
 
 def newMachine (lk : Leaks) (fl : NFlags) : Machine NSt NType NOut :=
   { init := {}, step := newStep lk fl, stale := fun _ => fl.getset, gfile := newGFile }
@@ -362,16 +382,19 @@ def typeMatch (srcL destL : List MField) (s : TM) : TM :=
 /-- end of `makeCtorMatch`: parameters without a target get their zero literal -/
 def fillZero (ps : List CParam) : List CParam := ps.map (fun p => if p.target.isNone then { p with zero := true } else p)
 
+/-- template func `evaluate`: a member read on the right-hand side, `x.F` or `x.F()` for a getter -/
+def MField.read (f : MField) : String := if f.isGet then f.name ++ "()" else f.name
+
 /-- mapper.tmpl, ToX: `Zero` wins over the target -/
 def argTo (p : CParam) : List String :=
   if p.zero then ["0"] else match p.target with
-    | some f => [f.name]
+    | some f => [f.read]
     | none => []
 
 /-- mapper.tmpl, FromX: the zero literal AND the target expression are both written -/
 def argFrom (p : CParam) : List String :=
   (if p.zero then ["0"] else []) ++ (match p.target with
-    | some f => [f.name]
+    | some f => [f.read]
     | none => [])
 
 /-- parseCtors / parseMethods assign only for ShootNew types (`own`); otherwise the field keeps the previous
@@ -393,8 +416,8 @@ def mapCore (t : MType) (dest : MSide) (srcCtor destCtor : List CParam) (srcAcc 
   let fromCtor := if srcCtor'.any (·.target.isSome) then some (srcCtor'.flatMap argFrom) else none
   -- makeTypeMatch
   let tm := typeMatch srcL destL { wDest := r1.2, wSrc := r2.2 }
-  let toWrites := srcL.zipIdx.filterMap (fun f => (tm.tgtOfSrc.lookup f.2).map (fun d => (d.name, f.1.name)))
-  let fromWrites := destL.zipIdx.filterMap (fun f => (tm.tgtOfDest.lookup f.2).map (fun s => (s.name, f.1.name)))
+  let toWrites := srcL.zipIdx.filterMap (fun f => (tm.tgtOfSrc.lookup f.2).map (fun d => (d.name, f.1.read)))
+  let fromWrites := destL.zipIdx.filterMap (fun f => (tm.tgtOfDest.lookup f.2).map (fun s => (s.name, f.1.read)))
   ({ srcCtor := srcCtor', destCtor := destCtor', srcAcc := srcAcc, destAcc := destAcc, writeSrc := tm.wSrc, writeDest := tm.wDest },
    some { toCtor := toCtor, toWrites := toWrites, fromCtor := fromCtor, fromWrites := fromWrites })
 
